@@ -699,7 +699,8 @@ def reference(s, rules, prot, policy, non_ascii_only):
     return out
 
 def cases():
-    d1 = {ord("a"): r"\alpha", ord("b"): "B", 0x7f: r"\del", ord("\t"): r"\tab", ord("\u00e9"): r"\'e", 0x0c: r"\ff"}
+    d1 = {ord("a"): r"\alpha", ord("b"): "B", 0x7f: r"\del", ord("\t"): r"\tab", ord("\u00e9"): r"\'e", 0x0c: r"\ff",
+          ord("^"): r"\^{}"}
     rx1 = [(re.compile(r"\b[A-Z]{2,}"), r"{\g<0>}"), (re.compile(r"(?<=\d)-(?=\d)"), "--"), (re.compile(r"\.\.\."), r"\\ldots")]
     def c1(s, pos):
         if s.startswith("--", pos): return (2, r"\textendash")
@@ -713,7 +714,7 @@ def cases():
         yield [("dict", d1, own)]
         yield [("callable", c1, None), ("callable", c2, own), ("regex", rx1, None)]
 
-INPUTS = ["a--b %c", "McDONALD NASA xABC 1-2 a...b", "ab\tc\x7fd\x0ce\u00e9", "e\u0301 x\U0001F600y\u0378", "", "%a\\", "a\x01"]
+INPUTS = ["x^2 \x80\x81", "a--b %c", "McDONALD NASA xABC 1-2 a...b", "ab\tc\x7fd\x0ce\u00e9", "e\u0301 x\U0001F600y\u0378", "", "%a\\", "a\x01"]
 
 def build(rules):
     out = []
